@@ -8,11 +8,12 @@ base = work + '/base'
 t2 = work + '/t2'
 for d in (base + '/tools', base + '/coq/theories/Proofs', t2 + '/tools', t2 + '/coq/theories/Proofs', t2 + '/coq/theories/Gen'):
     os.makedirs(d, exist_ok=True)
-if not os.path.exists(base + '/repo0'):
-    os.symlink('/tmp/ag/tol/repo0', base + '/repo0')
-for f in os.listdir('/tmp/ag/tol/coq/theories/Proofs'):
+for nm in ('repo0', 'repo_base'):
+    if not os.path.exists(base + '/' + nm):
+        os.symlink('/tmp/ag/tol2/repo0', base + '/' + nm)
+for f in os.listdir('/tmp/ag/tol2/coq/theories/Proofs'):
     if f.endswith('.v'):
-        shutil.copy('/tmp/ag/tol/coq/theories/Proofs/' + f, base + '/coq/theories/Proofs/' + f)
+        shutil.copy('/tmp/ag/tol2/coq/theories/Proofs/' + f, base + '/coq/theories/Proofs/' + f)
 src = re.sub(r"^BASE = '[^']*'", "BASE = %r" % base, src, count=1, flags=re.M)
 src = re.sub(r"^T2 = '[^']*'", "T2 = %r" % t2, src, count=1, flags=re.M)
 src = re.sub(r"^MUT = BASE \+ '/repo_mut'", "MUT = %r" % (t2 + '_repo'), src, count=1, flags=re.M)
